@@ -57,9 +57,11 @@ def r16_1(ctx):
                     ctx.ok("R16.1", where(fi), f"{nm}() - the shared renderer", nontrivial=False)
     ctx.floor("R16.1", n, 12, "uses of the shared renderer in fetch/search/pop3")
     # get_msg_size = len(msg_as_bytes(...)); msg_as_bytes -> _msg_as_bytes
+    from .common import pm_of
+
     gs = p.func("generator.get_msg_size")
-    t = norm(gs.node, 2000)
-    if "msg_bytes = msg_as_bytes(msg, render_headers=render_headers)" in t and "return len(msg_bytes)" in t:
+    pg = pm_of(p, gs)
+    if (pg.has("msg_bytes = msg_as_bytes(msg, render_headers=render_headers)") and pg.has("return len(msg_bytes)")) or pg.has("return len(msg_as_bytes(msg, render_headers=render_headers))"):
         ctx.ok("R16.1", where(gs), "get_msg_size = len(msg_as_bytes(msg))")
     else:
         ctx.bad("R16.1", gs.module, gs.qual, "len(msg_as_bytes(msg))", "get_msg_size no longer measures the bytes msg_as_bytes produces: RFC822.SIZE differs from the octet count of BODY[]", gs.node.lineno)
@@ -69,8 +71,8 @@ def r16_1(ctx):
     else:
         ctx.bad("R16.1", sz.module, sz.qual, "get_msg_size(self.msg())", "SearchContext.msg_size no longer uses the shared size function", sz.node.lineno)
     bs = p.func("fetch.FetchAtt.bodystructure")
-    t = norm(bs.node, 30000)
-    if "payload = msg_as_bytes(msg, render_headers=False)" in t and "str(len(payload))" in t and "payload.count(b'\\n')" in t:
+    pb = pm_of(p, bs)
+    if pb.has("payload = msg_as_bytes(msg, render_headers=False)") and pb.has("str(len(payload))") and pb.has("payload.count(b'\\n')"):
         ctx.ok("R16.1", where(bs), "BODYSTRUCTURE size/lines from msg_as_bytes(render_headers=False)")
     else:
         ctx.bad("R16.1", bs.module, bs.qual, "payload = msg_as_bytes(msg, render_headers=False)", "BODYSTRUCTURE no longer measures the rendered body part", bs.node.lineno)
@@ -118,15 +120,20 @@ def r16_2(ctx):
             diff = {x: (got[x], w[x]) for x in w if got[x] != w[x]}
             ctx.bad("R16.2", fi.module, fi.qual, norm(c, 120), f"{k.replace('_', '.')} is desugared differently from its RFC 3501 equivalent (found vs expected: {diff}): it no longer equals its BODY[...] counterpart / changes \\Seen differently", c.lineno)
     # BODY / BODY.PEEK constructions after `peek` and `section` are computed
-    peek_line = max([s.lineno for s in body_walk(fi.node) if isinstance(s, ast.Assign) and any(isinstance(t, ast.Name) and t.id == "peek" for t in s.targets)] or [0])
-    sect_line = max([s.lineno for s in body_walk(fi.node) if isinstance(s, ast.Assign) and any(isinstance(t, ast.Name) and t.id == "section" for t in s.targets)] or [0])
-    ctx.require(peek_line and sect_line, "_p_fetch_att: peek/section computation not found")
+    from .common import pm_of
+
+    pm = pm_of(p, fi)
+    pk = pm.find("if fetch_att_tok == ParseFetchAtt.BODY_PEEK:\n    peek = True\n    ...\nelse:\n    peek = False")
+    sc0 = pm.find("section = self._p_section()")
+    ctx.require(pk is not None and sc0 is not None, "_p_fetch_att: peek/section computation not found")
+    peek_var, sect_var = pm.name("peek"), pm.name("section")
+    sect_line = sc0.lineno
     late = [c for c in _fa_calls(fi) if c.lineno > sect_line]
     ctx.require(len(late) >= 1, "_p_fetch_att: BODY constructions not found")
     n_partial = 0
     for c in late:
         pk, sc_, pa = kwarg(c, "peek"), kwarg(c, "section"), kwarg(c, "partial")
-        okv = pk is not None and norm(pk) == "peek" and sc_ is not None and norm(sc_) == "section"
+        okv = pk is not None and norm(pk) == peek_var and sc_ is not None and norm(sc_) == sect_var
         if pa is not None:
             n_partial += 1
             okv = okv and "_p_partial()" in norm(pa)
@@ -166,26 +173,24 @@ def r16_2(ctx):
 
 def r16_3(ctx):
     p = ctx.p
+    from .common import pm_of
+
     mb = p.func("generator._msg_as_bytes")
-    t = norm(mb.node, 6000)
-    if "msg_bytes = msg_bytes if msg_bytes.endswith(b'\\r\\n') else msg_bytes + b'\\r\\n'" in t and t.rstrip().endswith("return msg_bytes"):
+    pmb = pm_of(p, mb)
+    last = mb.node.body[-1]
+    if pmb.has("msg_bytes = msg_bytes if msg_bytes.endswith(b'\\r\\n') else msg_bytes + b'\\r\\n'") and isinstance(last, ast.Return) and norm(last.value) == pmb.name("msg_bytes"):
         ctx.ok("R16.3", where(mb), "rendered bytes are CRLF-terminated (appended iff missing) before they are returned")
     else:
         ctx.bad("R16.3", mb.module, mb.qual, "msg_bytes if msg_bytes.endswith(b'\\r\\n') else msg_bytes + b'\\r\\n'", "_msg_as_bytes no longer guarantees CRLF termination", mb.node.lineno)
     fb = p.func("fetch.FetchAtt.body")
-    order = []
-    for s in fb.node.body:
-        tt = norm(s, 400)
-        if isinstance(s, ast.Assign) and "endswith(b'\\r\\n')" in tt:
-            order.append("terminate")
-        if isinstance(s, ast.If) and "self.partial" in norm(s.test):
-            order.append("slice")
-            inner = " ".join(norm(b) for b in s.body)
-            if "end = self.partial[0] + self.partial[1]" in inner and "msg_text = msg_text[self.partial[0]:end]" in inner:
-                order.append("slice-ok")
-        if isinstance(s, ast.Return):
-            order.append("emit")
-    if order == ["terminate", "slice", "slice-ok", "emit"]:
+    pfb = pm_of(p, fb)
+    steps = [
+        ("terminate", pfb.find("msg_text = msg_text if msg_text.endswith(b'\\r\\n') else msg_text + b'\\r\\n'")),
+        ("slice", pfb.find("if self.partial:\n    end = self.partial[0] + self.partial[1]\n    msg_text = msg_text[self.partial[0]:end]")),
+        ("emit", pfb.find("return f'{{{len(msg_text)}}}\\r\\n'.encode('latin-1') + msg_text")),
+    ]
+    order = [nm for nm, n_ in sorted(((nm, n_) for nm, n_ in steps if n_ is not None), key=lambda x: x[1].lineno)]
+    if order == ["terminate", "slice", "emit"] and len(order) == 3:
         ctx.ok("R16.3", where(fb), "FetchAtt.body: terminate -> slice [o : o+n] -> emit")
     else:
         ctx.bad("R16.3", fb.module, fb.qual, " -> ".join(order), "FetchAtt.body no longer terminates with CRLF, then takes exactly [origin : origin+count], then emits", fb.node.lineno)
@@ -236,20 +241,20 @@ def r16_4(ctx):
 
 
 def r16_5(ctx):
+    from .common import pm_of
+
     p = ctx.p
     fi = p.func("mbox.Mailbox.copy")
     ctx.analysed(fi)
-    loops = [n for n in body_walk(fi.node) if isinstance(n, ast.For) and norm(n.iter) == "msg_idxs"]
-    ctx.require(loops, "copy(): read loop over msg_idxs not found")
-    lp = loops[0]
-    idx = lp.target.id
-    kd = [s for s in lp.body if isinstance(s, ast.Assign) and norm(s.targets[0]) == "msg_key"]
-    if not (kd and norm(kd[0].value) == f"self.msg_keys[{idx} - 1]"):
-        ctx.bad("R16.5", fi.module, fi.qual, norm(kd[0]) if kd else "msg_key = ...", "copy() no longer derives the message key as msg_keys[sequence number - 1]", lp.lineno)
+    pm = pm_of(p, fi)
+    lp = pm.find("for idx in msg_idxs:\n    msg_key = self.msg_keys[idx - 1]\n    ...")
+    if lp is None:
+        ctx.bad("R16.5", fi.module, fi.qual, "for idx in msg_idxs: msg_key = self.msg_keys[idx - 1]", "copy() no longer derives each message key as msg_keys[sequence number - 1] at the top of its read loop", fi.node.lineno)
         return
-    ctx.ok("R16.5", where(fi), f"msg_key = self.msg_keys[{idx} - 1]")
+    key = pm.name("msg_key")
+    ctx.ok("R16.5", where(fi), f"{key} = self.msg_keys[{pm.name('idx')} - 1]")
     reads = {"get_bytes": None, "mbox_msg_path": None, "msg_sequences": None, "get_uid_from_msg": None}
-    for c in [x for s in lp.body for x in ast.walk(s) if isinstance(x, ast.Call)]:
+    for c in [x for s_ in lp.body for x in ast.walk(s_) if isinstance(x, ast.Call)]:
         nm = call_name(c)
         if nm in reads:
             arg = c.args[-1] if nm == "mbox_msg_path" else c.args[0]
@@ -259,19 +264,18 @@ def r16_5(ctx):
             ctx.bad("R16.5", fi.module, fi.qual, nm, f"copy() no longer reads {nm} per message", lp.lineno)
             continue
         a = v[0].replace("str(", "").replace(")", "")
-        if a == "msg_key":
+        if a == key:
             ctx.ok("R16.5", where(fi), f"{nm}(..{v[0]}..) uses the message key")
         else:
-            ctx.bad("R16.5", fi.module, fi.qual, norm(v[1], 80), f"copy() reads {nm} with `{v[0]}` instead of the message key: the bytes/date/flags/UID of one copied message come from different messages (a COPY does not return its source's bytes)", v[1].lineno)
+            ctx.bad("R16.5", fi.module, fi.qual, f"{nm}(<not the message key>)", f"copy() reads {nm} with `{v[0]}` instead of the message key: the bytes/date/flags/UID of one copied message come from different messages (a COPY does not return its source's bytes)", v[1].lineno)
     # write side: messages added in the order read; utime(mtime) preserved; sequences carried over
-    t = norm(fi.node, 40000)
-    for okv, what in (
-        ("for msg_path, sequences, mtime in copy_msgs" in t, "messages are written in the order they were read"),
-        ("await utime(mbox_msg_path(dst_mbox.mailbox, msg_key), (mtime, mtime))" in t, "internal date (mtime) carried to the copy"),
-        ("for sequence in sequences: dest_mbox_seqs[sequence].add(msg_key)" in t, "flags (sequences) carried to the copy"),
-        ("copy_msgs.append((msg_path, msg_seqs, mtime))" in t, "per-message record = (bytes file, sequences, mtime)"),
+    for pat, what in (
+        ("copy_msgs.append((msg_path, msg_seqs, mtime))", "per-message record = (bytes file, sequences, mtime)"),
+        ("for msg_path2, sequences, mtime2 in copy_msgs:\n    ...", "messages are written in the order they were read"),
+        ("await utime(mbox_msg_path(dst_mbox.mailbox, msg_key2), (mtime2, mtime2))", "internal date (mtime) carried to the copy"),
+        ("for sequence in sequences:\n    dest_mbox_seqs[sequence].add(msg_key2)", "flags (sequences) carried to the copy"),
     ):
-        if okv:
+        if pm.has(pat) or pm.has(pat.replace("msg_path2", "msg_path").replace("mtime2", "mtime").replace("msg_key2", "msg_key")):
             ctx.ok("R16.5", where(fi), what)
         else:
             ctx.bad("R16.5", fi.module, fi.qual, what, f"copy() lost: {what}", fi.node.lineno)
